@@ -1285,4 +1285,397 @@ theorem firstPres_whole {rep : Nat → Bool} {r : Re} (h : FirstPres rep r) (t :
     (hm : r.first t = some t.length) : r.first (escape rep t) = some (escape rep t).length := by
   rw [h t ht, hm]; simp [elen_length]
 
+
+/-! ## COMMENT -/
+
+/-- the class contains what `_escapecss` writes and everything it replaces -/
+structure EClosed (neg : Bool) (rs : List (Nat × Nat)) : Prop where
+  bs : Re.inCls neg rs 92 = true
+  sp : Re.inCls neg rs 32 = true
+  up : ∀ x, EncEscape.isUpperHex x = true → Re.inCls neg rs x = true
+  na : ∀ c, 128 ≤ c → Re.inCls neg rs c = true
+
+theorem cls_first_in (neg : Bool) (rs : List (Nat × Nat)) (c : Nat) (z : Cps) (h : Re.inCls neg rs c = true) :
+    (Re.cls neg rs).first (c :: z) = some 1 := by rw [first_cls_cons, h]; rfl
+
+theorem escChar_in (neg : Bool) (rs : List (Nat × Nat)) (hK : EClosed neg rs) (c : Nat) :
+    ∀ x ∈ escChar c, Re.inCls neg rs x = true := by
+  intro x hx
+  simp only [escChar, List.mem_cons, List.mem_append, List.not_mem_nil, or_false] at hx
+  rcases hx with (rfl | hx) | rfl
+  · exact hK.bs
+  · exact hK.up x (EncEscape.hexDigits_upper c x hx)
+  · exact hK.sp
+
+/-- greedy star of a class that is closed under escaping -/
+theorem starCls_firstPres (rep : Nat → Bool) (ha : AsciiRep rep) (neg : Bool) (rs : List (Nat × Nat))
+    (hK : EClosed neg rs) : FirstPres rep (Re.star (Re.cls neg rs) true) := by
+  apply firstPres_star_of_H (r := Re.cls neg rs) rfl (firstPresH_cls rep neg rs)
+  intro c hc _
+  refine ⟨fun t => cls_first_in neg rs c t (hK.na c (unrep_ge ha hc)), fun y => ?_⟩
+  exact starLen_run (r := Re.cls neg rs) rfl y (escChar c)
+    (fun x hx z => cls_first_in neg rs x z (escChar_in neg rs hK c x hx))
+
+theorem takeWhile_lt {p : Nat → Bool} : ∀ (x : Cps) (l : Nat), l < (x.takeWhile p).length →
+    ∃ c t, x.drop l = c :: t ∧ p c = true := by
+  intro x
+  induction x with
+  | nil => intro l h; simp at h
+  | cons c t ih =>
+    intro l h
+    by_cases hc : p c = true
+    · simp only [List.takeWhile_cons, hc, if_true, List.length_cons] at h
+      cases l with
+      | zero => exact ⟨c, t, rfl, hc⟩
+      | succ l => simp only [List.drop_succ_cons]; exact ih l (by omega)
+    · simp [List.takeWhile_cons, hc] at h
+
+theorem dropWhile_head_not (p : Nat → Bool) : ∀ (x : Cps) (c : Nat) (t : Cps), x.dropWhile p = c :: t → p c = false := by
+  intro x
+  induction x with
+  | nil => intro c t h; simp at h
+  | cons d u ih =>
+    intro c t h
+    by_cases hd : p d = true
+    · simp only [List.dropWhile_cons, hd, if_true] at h; exact ih c t h
+    · simp only [List.dropWhile_cons, hd] at h
+      simp only [Bool.false_eq_true, if_false, List.cons.injEq] at h
+      rw [← h.1]; simpa using hd
+
+theorem takeWhile_all (p : Nat → Bool) : ∀ (x : Cps), ∀ c ∈ x.takeWhile p, p c = true := by
+  intro x
+  induction x with
+  | nil => intro c h; simp at h
+  | cons d u ih =>
+    intro c h
+    by_cases hd : p d = true
+    · simp only [List.takeWhile_cons, hd, if_true, List.mem_cons] at h
+      rcases h with rfl | h
+      · exact hd
+      · exact ih c h
+    · simp [List.takeWhile_cons, hd] at h
+
+theorem takeWhile_length_le (p : Nat → Bool) : ∀ (x : Cps), (x.takeWhile p).length ≤ x.length := by
+  intro x
+  induction x with
+  | nil => simp
+  | cons d u ih =>
+    by_cases hd : p d = true
+    · simp only [List.takeWhile_cons, hd, if_true, List.length_cons]; omega
+    · simp [List.takeWhile_cons, hd]
+
+theorem starCls_ms (neg : Bool) (rs : List (Nat × Nat)) (x : Cps) :
+    (Re.star (Re.cls neg rs) true).ms x = countdown (x.takeWhile (Re.inCls neg rs)).length := by
+  have hstop : (Re.cls neg rs).ms (x.dropWhile (Re.inCls neg rs)) = [] := by
+    cases hd : x.dropWhile (Re.inCls neg rs) with
+    | nil => simp [Re.ms]
+    | cons c t =>
+      have : Re.inCls neg rs c = false := dropWhile_head_not _ x c t hd
+      simp [Re.ms, this]
+  have := starMs_run (Re.cls neg rs).ms (Re.inCls neg rs) (by intro c t h; simp [Re.ms, h])
+    (x.dropWhile (Re.inCls neg rs)) hstop (x.takeWhile (Re.inCls neg rs)) (x.length + 1)
+    (takeWhile_all _ x) (by
+      have := takeWhile_length_le (Re.inCls neg rs) x; omega)
+  rw [List.takeWhile_append_dropWhile] at this
+  exact this
+
+theorem countdown_tail_lt {n l : Nat} {ls : List Nat} (h : countdown n = l :: ls) : ∀ l' ∈ ls, l' < n := by
+  cases n with
+  | zero => simp [countdown] at h; obtain ⟨_, rfl⟩ := h; intro l' h'; cases h'
+  | succ n =>
+    simp only [countdown, List.cons.injEq] at h
+    obtain ⟨_, rfl⟩ := h
+    intro l' h'
+    have := mem_countdown h'; omega
+
+/-- after a greedy run of a class, a tail that cannot start inside the class leaves no way back -/
+theorem tight_starCls (neg : Bool) (rs : List (Nat × Nat)) (b : Re)
+    (hb : ∀ c t, c ≤ maxUnicode → Re.inCls neg rs c = true → b.ms (c :: t) = []) :
+    Tight (Re.star (Re.cls neg rs) true) b := by
+  intro x hx l ls hm l' hl'
+  rw [starCls_ms] at hm
+  have hlt := countdown_tail_lt hm l' hl'
+  obtain ⟨c, t, hd, hc⟩ := takeWhile_lt x l' hlt
+  rw [hd]
+  exact hb c t (hx c (List.mem_of_mem_drop (by rw [hd]; simp))) hc
+
+def notStarRe : Re := Re.cls true [(42, 42)]
+def starCharRe : Re := Re.cls false [(42, 42)]
+def slashRe : Re := Re.cls false [(47, 47)]
+def stars1Re : Re := Re.seq starCharRe (Re.star starCharRe true)
+def nsSRe : Re := Re.cls true [(47, 47), (42, 42)]
+def cTRe : Re := Re.seq (Re.star notStarRe true) stars1Re
+def cGRe : Re := Re.seq nsSRe cTRe
+def cR3Re : Re := Re.seq (Re.star cGRe true) slashRe
+def cR2Re : Re := Re.seq stars1Re cR3Re
+def cR1Re : Re := Re.seq (Re.star notStarRe true) cR2Re
+
+theorem reCOMMENT_shape : reCOMMENT = Re.seq slashRe (Re.seq starCharRe cR1Re) := by decide
+
+theorem inCls_notStar (c : Nat) : Re.inCls true [(42, 42)] c = decide (c ≠ 42) := by
+  simp only [Re.inCls, List.any_cons, List.any_nil, Bool.or_false]
+  by_cases h : c = 42
+  · subst h; decide
+  · have : (decide (42 ≤ c) && decide (c ≤ 42)) = false := by
+      simp only [Bool.and_eq_false_iff, decide_eq_false_iff_not]; omega
+    simp [this, h]
+
+theorem inCls_nsS (c : Nat) : Re.inCls true [(47, 47), (42, 42)] c = decide (c ≠ 47 ∧ c ≠ 42) := by
+  simp only [Re.inCls, List.any_cons, List.any_nil, Bool.or_false]
+  by_cases h : c = 42
+  · subst h; decide
+  · by_cases h' : c = 47
+    · subst h'; decide
+    · have h1 : (decide (42 ≤ c) && decide (c ≤ 42)) = false := by
+        simp only [Bool.and_eq_false_iff, decide_eq_false_iff_not]; omega
+      have h2 : (decide (47 ≤ c) && decide (c ≤ 47)) = false := by
+        simp only [Bool.and_eq_false_iff, decide_eq_false_iff_not]; omega
+      simp [h1, h2, h, h']
+
+theorem notStar_eclosed : EClosed true [(42, 42)] := by
+  refine ⟨by decide, by decide, ?_, ?_⟩
+  · intro x hx
+    simp only [EncEscape.isUpperHex, Bool.or_eq_true, Bool.and_eq_true, decide_eq_true_eq] at hx
+    rw [inCls_notStar]; simp; omega
+  · intro c hc; rw [inCls_notStar]; simp; omega
+
+theorem stars1_ms_notStar (c : Nat) (t : Cps) (h : Re.inCls true [(42, 42)] c = true) : stars1Re.ms (c :: t) = [] := by
+  rw [inCls_notStar] at h
+  have hc : c ≠ 42 := by simpa using h
+  have : Re.inCls false [(42, 42)] c = false := by simp [inCls_single, hc]
+  simp [stars1Re, starCharRe, Re.ms, this]
+
+theorem cR2_ms_notStar (c : Nat) (t : Cps) (h : Re.inCls true [(42, 42)] c = true) : cR2Re.ms (c :: t) = [] := by
+  have := stars1_ms_notStar c t h
+  simp only [cR2Re, Re.ms] at this ⊢
+  simp [stars1Re, Re.ms] at this ⊢
+  rw [inCls_notStar] at h
+  have hc : c ≠ 42 := by simpa using h
+  have h2 : Re.inCls false [(42, 42)] c = false := by simp [inCls_single, hc]
+  simp [starCharRe, Re.ms, h2]
+
+theorem stars1_asciiPos : asciiPos stars1Re = true := by decide
+
+theorem cT_seqDet : SeqDet (Re.star notStarRe true) stars1Re :=
+  seqDet_of_tight (tight_starCls true [(42, 42)] stars1Re (fun c t _ h => stars1_ms_notStar c t h))
+
+theorem cT_firstPres (rep : Nat → Bool) (ha : AsciiRep rep) : FirstPres rep cTRe :=
+  firstPres_seq_det (starCls_firstPres rep ha true [(42, 42)] notStar_eclosed)
+    (firstPres_of_same (asciiPos_sound rep ha _ stars1_asciiPos)) cT_seqDet
+
+/-- a run of characters that are not `*` in front does not change what `[^*]*\*+` finds -/
+theorem cT_first_run (run y : Cps) (hrun : ∀ c ∈ run, Re.inCls true [(42, 42)] c = true) (hb : Bnd (run ++ y)) :
+    cTRe.first (run ++ y) = (cTRe.first y).map (run.length + ·) := by
+  have hby : Bnd y := fun c hc => hb c (List.mem_append_right _ hc)
+  have hn : (Re.cls true [(42, 42)]).nonNullable = true := rfl
+  rw [cTRe, cT_seqDet _ hb, cT_seqDet _ hby, notStarRe, first_star' hn, first_star' hn]
+  simp only [Option.bind_some]
+  rw [starLen_run hn y run (fun c hc z => cls_first_in _ _ c z (hrun c hc))]
+  rw [show (run ++ y).drop (run.length + starLen (Re.cls true [(42, 42)]) y) =
+    y.drop (starLen (Re.cls true [(42, 42)]) y) from by rw [← List.drop_drop]; simp]
+  cases stars1Re.first (y.drop (starLen (Re.cls true [(42, 42)]) y)) with
+  | none => rfl
+  | some l => simp [Nat.add_assoc]
+
+theorem cG_firstPres (rep : Nat → Bool) (ha : AsciiRep rep) : FirstPres rep cGRe := by
+  have hT := cT_firstPres rep ha
+  intro s hs
+  cases s with
+  | nil => simp [escape, cGRe, nsSRe, first_seq_cls_nil]
+  | cons c t =>
+    cases hc : rep c with
+    | true =>
+      rw [escape_cons_rep t hc, cGRe, nsSRe, first_seq_cls_cons, first_seq_cls_cons, hT t hs.tail]
+      split
+      · cases cTRe.first t with
+        | none => rfl
+        | some l => simp [elen_succ_rep t l hc]
+      · rfl
+    | false =>
+      have h128 := unrep_ge ha hc
+      have e : escape rep (c :: t) = 92 :: ((hexDigits c ++ [32]) ++ escape rep t) := by
+        simp [escape, hc, escChar]
+      have hin : Re.inCls true [(47, 47), (42, 42)] c = true := by rw [inCls_nsS]; simp; omega
+      have hin92 : Re.inCls true [(47, 47), (42, 42)] 92 = true := by decide
+      have hb : Bnd ((hexDigits c ++ [32]) ++ escape rep t) := by
+        have := escape_bnd hs
+        rw [e] at this
+        exact fun x hx => this x (List.mem_cons_of_mem _ hx)
+      have hrun : ∀ x ∈ hexDigits c ++ [32], Re.inCls true [(42, 42)] x = true := by
+        intro x hx
+        apply escChar_in true [(42, 42)] notStar_eclosed c
+        show x ∈ 92 :: (hexDigits c ++ [32])
+        exact List.mem_cons_of_mem _ hx
+      rw [e, cGRe, nsSRe, first_seq_cls_cons, first_seq_cls_cons, hin, hin92, cT_first_run _ _ hrun hb,
+        hT t hs.tail]
+      simp only [if_true]
+      cases cTRe.first t with
+      | none => rfl
+      | some l =>
+        simp only [Option.map_some, Option.some.injEq]
+        rw [elen_add]
+        simp [elen, escape, hc, escChar]
+        omega
+
+
+theorem flatMap_countdown_tight {β : Type} (f : Nat → List β) : ∀ (n : Nat), (∀ l, l < n → f l = []) →
+    (countdown n).flatMap f = f n := by
+  intro n h
+  cases n with
+  | zero => simp [countdown]
+  | succ n =>
+    simp only [countdown, List.flatMap_cons]
+    rw [flatMap_nil_of_all _ _ (fun l hl => h l (by have := mem_countdown hl; omega))]
+    simp
+
+theorem countdown_ne_nil (n : Nat) : countdown n ≠ [] := by cases n <;> simp [countdown]
+
+theorem cT_ms (t : Cps) : cTRe.ms t =
+    (stars1Re.ms (t.drop (t.takeWhile (Re.inCls true [(42, 42)])).length)).map
+      ((t.takeWhile (Re.inCls true [(42, 42)])).length + ·) := by
+  show ((Re.star notStarRe true).ms t).flatMap (fun l1 => (stars1Re.ms (t.drop l1)).map (l1 + ·)) = _
+  rw [notStarRe, starCls_ms]
+  apply flatMap_countdown_tight (fun l1 => (stars1Re.ms (t.drop l1)).map (l1 + ·))
+  intro l hl
+  obtain ⟨c, u, hd, hc⟩ := takeWhile_lt t l hl
+  simp only [hd, stars1_ms_notStar c u hc, List.map_nil]
+
+theorem stars1_ms_tail (z : Cps) (l : Nat) (ls : List Nat) (h : stars1Re.ms z = l :: ls) :
+    ∀ l' ∈ ls, (z.drop l').head? = some 42 := by
+  rcases z with _ | ⟨d, z'⟩
+  · simp [stars1Re, starCharRe, Re.ms] at h
+  have hms : stars1Re.ms (d :: z') = if Re.inCls false [(42, 42)] d then
+      ((Re.star (Re.cls false [(42, 42)]) true).ms z').map (1 + ·) else [] := by
+    simp only [stars1Re, starCharRe, Re.ms]; split <;> simp
+  rw [hms] at h
+  split at h
+  · rw [starCls_ms] at h
+    cases hcd : countdown (z'.takeWhile (Re.inCls false [(42, 42)])).length with
+    | nil => exact absurd hcd (countdown_ne_nil _)
+    | cons a as =>
+      rw [hcd] at h
+      simp only [List.map_cons, List.cons.injEq] at h
+      obtain ⟨_, rfl⟩ := h
+      intro l' hl'
+      simp only [List.mem_map] at hl'
+      obtain ⟨j, hj, rfl⟩ := hl'
+      have hlt := countdown_tail_lt hcd j hj
+      obtain ⟨c, u, hd, hc⟩ := takeWhile_lt z' j hlt
+      rw [Nat.add_comm, List.drop_succ_cons, hd]
+      simp only [inCls_single, decide_eq_true_eq] at hc
+      simp [hc]
+  · cases h
+
+theorem cG_ms_cons (c : Nat) (t : Cps) : cGRe.ms (c :: t) =
+    if Re.inCls true [(47, 47), (42, 42)] c then (cTRe.ms t).map (1 + ·) else [] := by
+  simp only [cGRe, nsSRe, Re.ms]; split <;> simp
+
+theorem cG_ms_tail (x : Cps) (g1 : Nat) (grest : List Nat) (h : cGRe.ms x = g1 :: grest) :
+    (∃ c t, x = c :: t ∧ c ≠ 47 ∧ c ≠ 42) ∧ ∀ g2 ∈ grest, (x.drop g2).head? = some 42 := by
+  rcases x with _ | ⟨c, t⟩
+  · simp [cGRe, nsSRe, Re.ms] at h
+  rw [cG_ms_cons] at h
+  split at h
+  · rename_i hin
+    rw [inCls_nsS] at hin
+    have hc : c ≠ 47 ∧ c ≠ 42 := by simpa using hin
+    refine ⟨⟨c, t, rfl, hc.1, hc.2⟩, ?_⟩
+    rw [cT_ms] at h
+    generalize hn : (t.takeWhile (Re.inCls true [(42, 42)])).length = n at h
+    cases hs : stars1Re.ms (t.drop n) with
+    | nil => rw [hs] at h; cases h
+    | cons l ls =>
+      rw [hs] at h
+      simp only [List.map_cons, List.map_map, List.cons.injEq] at h
+      obtain ⟨_, rfl⟩ := h
+      intro g2 hg2
+      simp only [List.mem_map, Function.comp] at hg2
+      obtain ⟨l', hl', rfl⟩ := hg2
+      have := stars1_ms_tail (t.drop n) l ls hs l' hl'
+      rw [List.drop_drop] at this
+      rw [Nat.add_comm 1, List.drop_succ_cons]
+      exact this
+  · cases h
+
+theorem cG_nonNullable : cGRe.nonNullable = true := by decide
+
+theorem cG_ms_star (w : Cps) : cGRe.ms (42 :: w) = [] := by
+  rw [cG_ms_cons]; simp [Re.inCls]
+
+theorem starMs_cG_tight : ∀ (n : Nat) (x : Cps), x.length < n →
+    ∀ l ls, Re.starMs cGRe.ms true n x = l :: ls → ∀ l' ∈ ls, (x.drop l').head? ≠ some 47 := by
+  intro n
+  induction n with
+  | zero => intro x h; omega
+  | succ n ih =>
+    intro x hx l ls hm l' hl'
+    simp only [Re.starMs, if_true, filter_pos_of_nonNullable cG_nonNullable] at hm
+    cases hI : cGRe.ms x with
+    | nil =>
+      rw [hI] at hm
+      simp only [List.flatMap_nil, List.nil_append, List.cons.injEq] at hm
+      obtain ⟨_, rfl⟩ := hm
+      cases hl'
+    | cons g1 grest =>
+      rw [hI] at hm
+      have hg1 : g1 ∈ cGRe.ms x := by rw [hI]; simp
+      have hpos := Re.nonNullable_sound cGRe cG_nonNullable x g1 hg1
+      have hbd := Re.ms_bounded cGRe x g1 hg1
+      obtain ⟨⟨c, t, hxc, hc47, _⟩, htail⟩ := cG_ms_tail x g1 grest hI
+      simp only [List.flatMap_cons] at hm
+      cases hS : Re.starMs cGRe.ms true n (x.drop g1) with
+      | nil => exact absurd hS (starMs_ne_nil _ _ _ _)
+      | cons h hs =>
+        rw [hS] at hm
+        simp only [List.map_cons, List.cons_append, List.cons.injEq] at hm
+        obtain ⟨_, rfl⟩ := hm
+        simp only [List.mem_append, List.mem_map, List.mem_flatMap, List.mem_singleton] at hl'
+        rcases hl' with (⟨l'', h1, rfl⟩ | ⟨g2, hg2, l'', h2, rfl⟩) | rfl
+        · have := ih (x.drop g1) (by simp only [List.length_drop]; omega) h hs hS l'' h1
+          rwa [List.drop_drop] at this
+        · have h42 := htail g2 hg2
+          cases hd : x.drop g2 with
+          | nil => rw [hd] at h42; cases h42
+          | cons d w =>
+            rw [hd] at h42 h2
+            simp only [List.head?_cons, Option.some.injEq] at h42
+            subst h42
+            have hst : Re.starMs cGRe.ms true n (42 :: w) = [0] := by
+              cases n with
+              | zero => rfl
+              | succ n => exact starMs_stuck _ _ n (cG_ms_star w)
+            rw [hst] at h2
+            simp only [List.mem_singleton] at h2
+            subst h2
+            rw [Nat.add_zero, hd]
+            simp
+        · subst hxc
+          simp only [List.drop_zero, List.head?_cons, ne_eq, Option.some.injEq]
+          exact hc47
+
+theorem cR3_tight : Tight (Re.star cGRe true) slashRe := by
+  intro x _ l ls hm l' hl'
+  have := starMs_cG_tight _ x (Nat.lt_succ_self _) l ls hm l' hl'
+  cases hd : x.drop l' with
+  | nil => simp [slashRe, Re.ms]
+  | cons c t =>
+    rw [hd] at this
+    simp only [List.head?_cons, ne_eq, Option.some.injEq] at this
+    simp [slashRe, Re.ms, inCls_single, this]
+
+/-- COMMENT keeps its first match -/
+theorem comment_firstPres (rep : Nat → Bool) (ha : AsciiRep rep) : FirstPres rep reCOMMENT := by
+  rw [reCOMMENT_shape]
+  have hslash : Same rep slashRe.ms := asciiPos_sound rep ha _ (by decide)
+  have hstar : Same rep starCharRe.ms := asciiPos_sound rep ha _ (by decide)
+  have h3 : FirstPres rep cR3Re :=
+    firstPres_seq_det (firstPres_star cG_nonNullable (cG_firstPres rep ha)) (firstPres_of_same hslash)
+      (seqDet_of_tight cR3_tight)
+  have h2 : FirstPres rep cR2Re :=
+    firstPres_seq_same (asciiPos_sound rep ha _ stars1_asciiPos) h3
+  have h1 : FirstPres rep cR1Re :=
+    firstPres_seq_det (starCls_firstPres rep ha true [(42, 42)] notStar_eclosed) h2
+      (seqDet_of_tight (tight_starCls true [(42, 42)] cR2Re (fun c t _ h => cR2_ms_notStar c t h)))
+  exact firstPres_seq_same hslash (firstPres_seq_same hstar h1)
+
 end CssVerif.EncTok
